@@ -469,3 +469,7 @@ INSTANCES.update({
     "reinst5": (seq(["root", "child", "drop", "setlp", "dropg", "lenter", "lexit", "reinstall"], MaxOps=5, MaxSpans=3, MaxRoots=2, MaxTraces=2,
                     MaxScopes=1, MaxLocal=1, MaxCycles=2, MaxFlush=1, distinct_ops=True), "terminal", {}),
 })
+
+# recovery after overload in cancelable mode (wave 10: a span set that overtakes the parked start of its own trace is
+# discarded as late, the root is delivered alone - C03's business as much as C09's)
+INSTANCES["over_recover_c"] = (dict(INSTANCES["over_recover"][0], cancelable=True), "terminal", {})
